@@ -605,6 +605,8 @@ inductive S where
   | extCall (target : String) (name : String) (args : E)
   /-- `try: body  except exc as x: handler`, for a body whose failure leaves the state as it was (one assignment or call) -/
   | tryExcept (body : S) (exc : String) (x : String) (handler : S)
+  /-- `(a, b, c) = <expr>`: the value must be an iterable of exactly that many items (`ValueError` otherwise) -/
+  | unpack (xs : List String) (e : E)
   /-- `raise <expr>` (`raise <expr> from <cause>`): the value must be an exception object (`excObj`) -/
   | raiseE (e : E)
   /-- `try: body  except A as x: hA  except B as y: hB …`: the first handler whose class catches the exception runs, **in the
@@ -841,6 +843,10 @@ def exec (ext : Ext) : S → St → Except Err (Ctl × St)
     match exec ext body st with
     | .error (.user tag) => if tag = exc then exec ext handler { st with env := st.env.set x (.opaque "exception" exc) } else .error (.user tag)
     | r => r
+  | .unpack xs e, st => do
+    let vs ← iterOf (← evalE ext st.env e)
+    if vs.length = xs.length then .ok (.next, { st with env := (xs.zip vs).foldl (fun env p => env.set p.1 p.2) st.env })
+    else .error (.user "ValueError")
   | .raiseE e, st => do
     let v ← evalE ext st.env e
     match excTag v with
